@@ -334,6 +334,7 @@ FirstBadRep(names, reps, t) ==       \* names: sequence; reps, t: records by nam
   ELSE IF ~RepOK(reps[Head(names)], t[Head(names)]) THEN "representation." \o Head(names)
   ELSE FirstBadRep(Tail(names), reps, t)
 
+Suspended(e) == FALSE
 ObsLegal(e) == FirstBadRep(e.obs.names, e.obs.rep, e.post.objs) = "ok"
 
 \* e = [op, a, post, obs];  obs = [exc, res (tensor or Reject), resrep (rows, <<>> if dense), rep (by name), names (seq)]
